@@ -60,6 +60,8 @@ type depthInterp struct {
 	visit   func(access ast.Expr, E ast.Expr, idx ast.Expr, ints bool, d dval)
 	// visitIP, when set, is called for every selector E.IP / E.Code with the depth of E
 	visitIP func(sel *ast.SelectorExpr, d dval)
+	// visitEnvCall, when set, is called for every call f(E) of a function-typed variable whose only parameter is *Env
+	visitEnvCall func(call *ast.CallExpr, d dval)
 }
 
 func (p *depthInterp) isUpn(e ast.Expr) bool {
@@ -170,6 +172,14 @@ func (p *depthInterp) exprWalk(n ast.Node) {
 			p.block(x.Body.List)
 			p.state = saved
 			return false
+		case *ast.CallExpr:
+			if p.visitEnvCall != nil && len(x.Args) == 1 && isEnvPtr(p.info.TypeOf(x.Args[0])) {
+				if id := identOf(x.Fun); id != nil {
+					if _, isVar := p.info.Uses[id].(*types.Var); isVar {
+						p.visitEnvCall(x, p.eval(x.Args[0]))
+					}
+				}
+			}
 		case *ast.SelectorExpr:
 			if p.visitIP != nil && (x.Sel.Name == "IP" || x.Sel.Name == "Code") && isEnvPtr(p.info.TypeOf(x.X)) {
 				p.visitIP(x, p.eval(x.X))
@@ -215,18 +225,33 @@ func (p *depthInterp) envLoop(f *ast.ForStmt) (map[types.Object]dval, bool) {
 		return nil, false
 	}
 	iv := identOf(as.Lhs[0])
-	c0, ok := constInt(p.info, as.Rhs[0])
-	if iv == nil || !ok {
+	if iv == nil {
 		return nil, false
 	}
 	iobj := p.info.Defs[iv]
 	cond, ok := unparen(f.Cond).(*ast.BinaryExpr)
-	if !ok || cond.Op != token.LSS || identOf(cond.X) == nil || p.info.Uses[identOf(cond.X)] != iobj || !p.isUpn(cond.Y) {
+	if !ok || identOf(cond.X) == nil || p.info.Uses[identOf(cond.X)] != iobj {
 		return nil, false
 	}
 	inc, ok := f.Post.(*ast.IncDecStmt)
-	if !ok || inc.Tok != token.INC || identOf(inc.X) == nil || p.info.Uses[identOf(inc.X)] != iobj {
+	if !ok || identOf(inc.X) == nil || p.info.Uses[identOf(inc.X)] != iobj {
 		return nil, false
+	}
+	var c0 int64
+	if p.isUpn(as.Rhs[0]) {
+		// counting down: for i := upn; i > c; i-- : (upn - c) iterations
+		c1, isC := constInt(p.info, cond.Y)
+		if cond.Op != token.GTR || !isC || inc.Tok != token.DEC {
+			return nil, false
+		}
+		c0 = c1
+	} else {
+		// counting up: for i := c; i < upn; i++
+		v, isC := constInt(p.info, as.Rhs[0])
+		if !isC || cond.Op != token.LSS || !p.isUpn(cond.Y) || inc.Tok != token.INC {
+			return nil, false
+		}
+		c0 = v
 	}
 	eff := map[types.Object]dval{}
 	for _, s := range f.Body.List {
@@ -710,5 +735,60 @@ func ruleAccessorFiles(c *Ctx, short string, files []string, rule string) {
 			}
 			return true
 		})
+	}
+}
+
+// ruleDepthOfEnvCalls — A3 for closures that switch to another frame before calling a captured closure:
+// in an arm of a depth switch labelled L, every call f(E) of a captured func(*Env) receives the frame L names.
+func ruleDepthOfEnvCalls(c *Ctx, short string, files []string, rule string) {
+	fdta := families(c, short)
+	ms := fdta.members
+	if len(files) > 0 {
+		ms = inFiles(c, ms, files...)
+	}
+	pk := c.P.Pkg(short)
+	info := pk.TypesInfo
+	n := 0
+	for _, m := range ms {
+		di := fdta.di[m.FD]
+		if m.UpnIdx < 0 {
+			continue
+		}
+		pe := m.Path[m.UpnIdx]
+		var tag ast.Expr
+		if s, ok := pe.Node.(*ast.SwitchStmt); ok {
+			tag = s.Tag
+		}
+		if pe.Tag != nil {
+			tag = pe.Tag
+		}
+		if tag == nil {
+			continue
+		}
+		label := pe.Label
+		if i := strings.LastIndexByte(label, '='); i >= 0 {
+			label = label[i+1:]
+		}
+		want, ok := expectedDepth(label)
+		if !ok {
+			continue
+		}
+		p := &depthInterp{info: info, di: di, upnObj: info.Uses[identOf(tag)], state: map[types.Object]dval{}, visit: func(access, E, idx ast.Expr, ints bool, d dval) {}}
+		p.visitEnvCall = func(call *ast.CallExpr, d dval) {
+			n++
+			c.Ob(rule, m.Key(), call, !d.unknown && d == want, fmt.Sprintf("%s is called with frame %s, arm is labelled %s (%s)", exprString(call.Fun), d, label, want))
+		}
+		for _, f := range m.Lit.Type.Params.List {
+			if isEnvPtr(info.TypeOf(f.Type)) {
+				for _, nm := range f.Names {
+					p.state[info.Defs[nm]] = dval{k: 0}
+				}
+				break
+			}
+		}
+		p.block(m.Lit.Body.List)
+	}
+	if n == 0 {
+		c.Ob(rule, short+"/"+strings.Join(files, ","), nil, false, "no frame-switching call found: anchor missing")
 	}
 }
